@@ -323,4 +323,304 @@ theorem hasDD_dot (a : Str) (h : '.' ∉ a) : hasDD ('.' :: a) = false := by
       injection h2 with h3 _
       exact hx h3
 
+/-! ### `parseSingle` on the four printed shapes -/
+
+theorem parseSingle_dd (f la : Str) (hf : '.' ∉ f) (hl : '.' ∉ la) :
+    parseSingle (f ++ ['.', '.'] ++ la) = locRange [f, la] {} := by
+  have e : f ++ ['.', '.'] ++ la = f ++ '.' :: '.' :: la := by simp
+  rw [parseSingle_eq, e, hasDD_append f _ hf, splitDD_two f la hf hl]
+  simp [hasDD]
+
+theorem parseSingle_dot (f la : Str) (hf : '.' ∉ f) (hl : '.' ∉ la) :
+    parseSingle (f ++ ['.'] ++ la) = locRange [f, la] { unk := true } := by
+  have e : f ++ ['.'] ++ la = f ++ '.' :: la := by simp
+  rw [parseSingle_eq, e, hasDD_append f _ hf, hasDD_dot la hl, splitC_two '.' f la hf hl]
+  simp
+
+theorem parseSingle_caret (f la : Str) (hf : '.' ∉ f) (hl : '.' ∉ la)
+    (hf' : '^' ∉ f) (hl' : '^' ∉ la) :
+    parseSingle (f ++ ['^'] ++ la) = locRange [f, la] { btw := true } := by
+  have e : f ++ ['^'] ++ la = f ++ '^' :: la := by simp
+  have hd : '.' ∉ f ++ '^' :: la := by
+    intro h
+    rcases List.mem_append.mp h with h | h
+    · exact hf h
+    · rcases List.mem_cons.mp h with h | h
+      · revert h; decide
+      · exact hl h
+  rw [parseSingle_eq, e, hasDD_of_not_mem _ hd, splitC_two '^' f la hf' hl']
+  have hc : (f ++ '^' :: la).contains '.' = false := by simpa using hd
+  rw [hc]
+  simp
+
+theorem parseSingle_atom (s : Str) (h1 : '.' ∉ s) (h2 : '^' ∉ s) : parseSingle s = locAtom s := by
+  have hc1 : s.contains '.' = false := by simpa using h1
+  have hc2 : s.contains '^' = false := by simpa using h2
+  rw [parseSingle_eq, hasDD_of_not_mem _ h1, hc1, hc2]
+  simp
+
+theorem locAtom_plain (c : Char) (r : Str) (h1 : c ≠ '<') (h2 : c ≠ '>') :
+    locAtom (c :: r) = (readInt (c :: r)).map (fun n => ⟨n, n, false, {}⟩) := by
+  unfold locAtom
+  split
+  · next heq => exact absurd heq (by simp)
+  · next heq => injection heq with ha _; exact absurd ha h1
+  · next heq => injection heq with ha _; exact absurd ha h2
+  · rfl
+
+/-- the part of a printed single location inside `complement( )` -/
+def locCore (l : Loc) : Str :=
+  let f := locTok l.defect.bl '<' l.first
+  let la := locTok l.defect.br '>' l.last
+  if decide (l.first = l.last) && !l.defect.unk && !l.defect.btw && !(l.defect.bl && l.defect.br) then
+    (if l.defect.br then la else f)
+  else if l.defect.unk then f ++ ['.'] ++ la
+  else if l.defect.btw then f ++ ['^'] ++ la
+  else f ++ ['.', '.'] ++ la
+
+theorem printSingle_eq (l : Loc) :
+    printSingle l = if l.rev then "complement(".toList ++ locCore l ++ [')'] else locCore l := rfl
+
+theorem loc_mem_join3 (P : Char → Prop) (f sep la : Str) (hf : ∀ c ∈ f, P c)
+    (hs : ∀ c ∈ sep, P c) (hl : ∀ c ∈ la, P c) : ∀ c ∈ f ++ sep ++ la, P c := by
+  intro c hc
+  rcases List.mem_append.mp hc with hc | hc
+  · rcases List.mem_append.mp hc with hc | hc
+    · exact hf c hc
+    · exact hs c hc
+  · exact hl c hc
+
+theorem locCore_chars (l : Loc) : ∀ c ∈ locCore l, c ∈ locCoreChars := by
+  have hsub : ∀ c ∈ locTokChars, c ∈ locCoreChars := by decide
+  have hf : ∀ c ∈ locTok l.defect.bl '<' l.first, c ∈ locCoreChars :=
+    fun c hc => hsub c (locTok_chars _ _ _ (by decide) c hc)
+  have hl : ∀ c ∈ locTok l.defect.br '>' l.last, c ∈ locCoreChars :=
+    fun c hc => hsub c (locTok_chars _ _ _ (by decide) c hc)
+  intro c hc
+  unfold locCore at hc
+  dsimp only at hc
+  split at hc
+  · split at hc
+    · exact hl c hc
+    · exact hf c hc
+  · split at hc
+    · exact loc_mem_join3 _ _ _ _ hf (by decide) hl c hc
+    · split at hc
+      · exact loc_mem_join3 _ _ _ _ hf (by decide) hl c hc
+      · exact loc_mem_join3 _ _ _ _ hf (by decide) hl c hc
+
+theorem parseSingle_locCore (l : Loc) (h : Expressible l) :
+    parseSingle (locCore l) = some { l with rev := false } := by
+  obtain ⟨a, b, rev, ⟨mL, mR, bl, br, unk, btw⟩⟩ := l
+  obtain ⟨hab, hmL, hmR, hub⟩ := h
+  dsimp only at hab hmL hmR hub
+  subst hmL hmR
+  have hfd : '.' ∉ locTok bl '<' a := locTok_not_mem _ (by decide) _ _ _ (by decide)
+  have hld : '.' ∉ locTok br '>' b := locTok_not_mem _ (by decide) _ _ _ (by decide)
+  have hfc : '^' ∉ locTok bl '<' a := locTok_not_mem _ (by decide) _ _ _ (by decide)
+  have hlc : '^' ∉ locTok br '>' b := locTok_not_mem _ (by decide) _ _ _ (by decide)
+  unfold locCore
+  dsimp only
+  by_cases hc : (decide (a = b) && !unk && !btw && !(bl && br)) = true
+  · rw [if_pos hc]
+    simp only [Bool.and_eq_true, decide_eq_true_eq, Bool.not_eq_true', Bool.and_eq_false_imp] at hc
+    obtain ⟨⟨⟨hab', hu⟩, hb⟩, hlr⟩ := hc
+    subst hab' hu hb
+    cases br with
+    | true =>
+      cases bl with
+      | true => simp at hlr
+      | false =>
+        rw [if_pos rfl, parseSingle_atom _ hld hlc]
+        show locAtom ('>' :: showInt a) = _
+        simp [locAtom, readInt_showInt]
+    | false =>
+      rw [if_neg (by simp), parseSingle_atom _ hfd hfc]
+      cases bl with
+      | true =>
+        show locAtom ('<' :: showInt a) = _
+        simp [locAtom, readInt_showInt]
+      | false =>
+        show locAtom (showInt a) = _
+        cases hs : showInt a with
+        | nil => exact absurd hs (showInt_ne_nil a)
+        | cons c r =>
+          have hcm : c ∈ locIntChars := showInt_locChars a c (by rw [hs]; exact List.mem_cons_self)
+          rw [locAtom_plain c r (by intro h; subst h; revert hcm; decide)
+            (by intro h; subst h; revert hcm; decide), ← hs, readInt_showInt]
+          rfl
+  · rw [if_neg hc]
+    cases unk with
+    | true =>
+      have hb : btw = false := by
+        cases btw with
+        | true => exact absurd ⟨rfl, rfl⟩ hub
+        | false => rfl
+      subst hb
+      rw [if_pos rfl, parseSingle_dot _ _ hfd hld, locRange_toks _ _ _ _ hab]
+    | false =>
+      rw [if_neg (by simp)]
+      cases btw with
+      | true =>
+        rw [if_pos rfl, parseSingle_caret _ _ hfd hld hfc hlc, locRange_toks _ _ _ _ hab]
+      | false =>
+        rw [if_neg (by simp), parseSingle_dd _ _ hfd hld, locRange_toks _ _ _ _ hab]
+
+/-! ### `parseLocsF` on the three syntactic forms -/
+
+def locJs : Str := ['j', 'o', 'i', 'n']
+def locOs : Str := ['o', 'r', 'd', 'e', 'r']
+def locCs : Str := ['c', 'o', 'm', 'p', 'l', 'e', 'm', 'e', 'n', 't']
+
+theorem loc_join_lit : "join".toList = locJs := by decide
+theorem loc_order_lit : "order".toList = locOs := by decide
+theorem loc_compl_lit : "complement".toList = locCs := by decide
+theorem loc_joinP_lit : "join(".toList = locJs ++ ['('] := by decide
+theorem loc_complP_lit : "complement(".toList = locCs ++ ['('] := by decide
+
+theorem loc_startsWith_ne (p0 : Char) (p : Str) (s0 : Char) (s : Str) (h : p0 ≠ s0) :
+    startsWith (p0 :: p) (s0 :: s) = false := by
+  simp [startsWith, List.isPrefixOf, h]
+
+theorem loc_startsWith_append (p s : Str) : startsWith p (p ++ s) = true := by
+  simp [startsWith]
+
+theorem loc_takeWhile_ne (x : Char) (pre rest : Str) (h : x ∉ pre) :
+    (pre ++ x :: rest).takeWhile (· ≠ x) = pre := by
+  induction pre with
+  | nil => simp
+  | cons y pre ih =>
+    have hy : y ≠ x := fun e => h (e ▸ List.mem_cons_self)
+    have hp : x ∉ pre := fun e => h (List.mem_cons_of_mem _ e)
+    have hi := ih hp
+    simp only [List.cons_append, List.takeWhile_cons, ne_eq, hy, not_false_eq_true, decide_true,
+      if_true, List.cons.injEq, true_and]
+    exact hi
+
+theorem parenContent_wrap (pre inner : Str) (h : '(' ∉ pre) :
+    parenContent (pre ++ '(' :: (inner ++ [')'])) = some inner := by
+  unfold parenContent
+  have h1 : (pre ++ '(' :: (inner ++ [')'])).contains '(' = true := by simp
+  have h2 : (pre ++ '(' :: (inner ++ [')'])).contains ')' = true := by simp
+  have h3 : (pre ++ '(' :: (inner ++ [')'])).reverse = ')' :: (inner.reverse ++ '(' :: pre.reverse) := by
+    simp
+  rw [if_pos ⟨h1, h2⟩]
+  simp only [loc_takeWhile_ne '(' pre _ h, h3]
+  have h4 : (')' :: (inner.reverse ++ '(' :: pre.reverse)).takeWhile (· ≠ ')') = [] := by simp
+  rw [h4]
+  have e : pre ++ '(' :: (inner ++ [')']) = (pre ++ ['(']) ++ inner ++ [')'] := by simp
+  have hlen : (pre ++ '(' :: (inner ++ [')'])).length - 1 - ([] : Str).length
+      = ((pre ++ ['(']) ++ inner).length := by
+    simp only [List.length_append, List.length_cons, List.length_nil]; omega
+  rw [hlen, e]
+  unfold sliceL
+  rw [List.take_left']
+  · have : pre.length + 1 = (pre ++ ['(']).length := by simp
+    rw [this, List.drop_left']
+    rfl
+  · rfl
+
+theorem parseLocsF_single_form (f : Nat) (c : Char) (r : Str)
+    (hj : c ≠ 'j') (ho : c ≠ 'o') (hc : c ≠ 'c') :
+    parseLocsF (f + 1) (c :: r) = (parseSingle (c :: r)).map (fun l => [l]) := by
+  rw [parseLocsF, loc_join_lit, loc_order_lit, loc_compl_lit]
+  have h1 : startsWith locJs (c :: r) = false := loc_startsWith_ne _ _ _ _ (Ne.symm hj)
+  have h2 : startsWith locOs (c :: r) = false := loc_startsWith_ne _ _ _ _ (Ne.symm ho)
+  have h3 : startsWith locCs (c :: r) = false := loc_startsWith_ne _ _ _ _ (Ne.symm hc)
+  simp [h1, h2, h3]
+
+theorem parseLocsF_compl_form (f : Nat) (inner : Str) :
+    parseLocsF (f + 1) (locCs ++ '(' :: (inner ++ [')']))
+      = (parseLocsF f inner).map (fun ls => ls.map (fun l => { l with rev := true })) := by
+  rw [parseLocsF, loc_join_lit, loc_order_lit, loc_compl_lit]
+  have h1 : startsWith locJs (locCs ++ '(' :: (inner ++ [')'])) = false :=
+    loc_startsWith_ne _ _ _ _ (by decide)
+  have h2 : startsWith locOs (locCs ++ '(' :: (inner ++ [')'])) = false :=
+    loc_startsWith_ne _ _ _ _ (by decide)
+  have h3 := loc_startsWith_append locCs ('(' :: (inner ++ [')']))
+  have h4 := parenContent_wrap locCs inner (by decide)
+  simp [h1, h2, h3, h4]
+
+theorem parseLocsF_join_form (f : Nat) (inner : Str) :
+    parseLocsF (f + 1) (locJs ++ '(' :: (inner ++ [')']))
+      = ((splitC ',' inner []).mapM (fun p => parseLocsF f (strip p))).map List.flatten := by
+  rw [parseLocsF, loc_join_lit]
+  have h1 := loc_startsWith_append locJs ('(' :: (inner ++ [')']))
+  have h4 := parenContent_wrap locJs inner (by decide)
+  simp [h1, h4]
+
+theorem parseLocsF_core (l : Loc) (h : Expressible l) (f : Nat) :
+    parseLocsF (f + 1) (locCore l) = some [{ l with rev := false }] := by
+  have hp := parseSingle_locCore l h
+  cases hs : locCore l with
+  | nil =>
+    have hn : parseSingle [] = none := by decide
+    rw [hs, hn] at hp
+    exact absurd hp (by simp)
+  | cons c r =>
+    have hc : c ∈ locCoreChars := locCore_chars l c (by rw [hs]; exact List.mem_cons_self)
+    rw [hs] at hp
+    rw [parseLocsF_single_form f c r (by intro h; subst h; revert hc; decide)
+      (by intro h; subst h; revert hc; decide) (by intro h; subst h; revert hc; decide), hp]
+    rfl
+
+theorem parseLocsF_printSingle (l : Loc) (h : Expressible l) (f : Nat) (hf : 2 ≤ f) :
+    parseLocsF f (printSingle l) = some [l] := by
+  obtain ⟨g, rfl⟩ : ∃ g, f = g + 2 := ⟨f - 2, by omega⟩
+  rw [printSingle_eq]
+  cases hr : l.rev with
+  | false =>
+    rw [if_neg (by simp), parseLocsF_core l h]
+    obtain ⟨a, b, rev, d⟩ := l
+    dsimp only at hr
+    subst hr
+    rfl
+  | true =>
+    rw [if_pos rfl, loc_complP_lit]
+    have e : locCs ++ ['('] ++ locCore l ++ [')'] = locCs ++ '(' :: (locCore l ++ [')']) := by simp
+    rw [e, parseLocsF_compl_form, parseLocsF_core l h]
+    obtain ⟨a, b, rev, d⟩ := l
+    dsimp only at hr
+    subst hr
+    rfl
+
+theorem printSingle_chars (l : Loc) : ∀ c ∈ printSingle l, c ∈ locPSChars := by
+  have hsub : ∀ c ∈ locCoreChars, c ∈ locPSChars := by decide
+  have hcore : ∀ c ∈ locCore l, c ∈ locPSChars := fun c hc => hsub c (locCore_chars l c hc)
+  intro c hc
+  rw [printSingle_eq] at hc
+  split at hc
+  · rw [loc_complP_lit] at hc
+    exact loc_mem_join3 _ _ _ _ (by decide) hcore (by decide) c hc
+  · exact hcore c hc
+
+theorem printSingle_ne_nil (l : Loc) : printSingle l ≠ [] := by
+  rw [printSingle_eq]
+  split
+  · simp
+  · intro h
+    have := parseLocsF_core
+    cases l with
+    | mk a b rev d =>
+      cases d with
+      | mk mL mR bl br unk btw =>
+        revert h
+        unfold locCore locTok
+        have := showInt_ne_nil a
+        have := showInt_ne_nil b
+        dsimp only
+        split
+        · split <;> simp [*]
+        · split
+          · simp
+          · split <;> simp
+
+theorem parseLocs_printSingle (l : Loc) (h : Expressible l) : parseLocs (printSingle l) = some [l] := by
+  unfold parseLocs
+  apply parseLocsF_printSingle l h
+  have := printSingle_ne_nil l
+  cases hs : printSingle l with
+  | nil => exact absurd hs this
+  | cons c r => simp
+
 end BiotiteModel.C12
